@@ -15,7 +15,8 @@ RULE = ("Hypothesis draws a crystal (2D/3D, 1-4 sites of the diffusing species, 
         "the exact lattice Green function (independent brute-force Fourier sum over periodic supercells 2x and 3x the k-mesh period, extrapolated in 1/N^3; "
         "the reference is validated against the lattice equation in every case); (f) GF.D equals the exact reference diffusivity.  Integration accuracy is decided by refinement: a "
         "residual above the tight tolerance is accepted only if it at least halves when Nmax goes from 4 to 8.  Non-trivial: >= 2 Wyckoff "
-        "sets with different energies or separation >= 3 jump lengths; distinct by (crystal, network, data, endpoints).")
+        "sets with different energies or separation >= 3 jump lengths; distinct by (crystal, network, data, endpoints, mesh order).  A quarter of the "
+        "calculators are built on a caller-supplied k-point mesh (kptwt=): the library's own reduced mesh, reversed or rolled by half, so that Gamma is not the first point.")
 ASSUMPTIONS = ["tight tolerances: 2e-6 (3D) / 2e-5 (2D) relative to escape*|g(0)| for the lattice equation, 1e-9 for exact symmetries",
                "far field: tolerance 2e-6 |g(0)| + 5 x reference error bar before refinement; the continuum pole is the large-|x| limit of the exact lattice function the library is compared with",
                "network precondition of the calculator (percolating, equivalent components) is imposed by the generator"]
@@ -54,7 +55,10 @@ def cases(draw):
     for _ in range(4):
         ends.append([draw(st.integers(0, n - 1)), draw(st.integers(0, n - 1)), [draw(st.integers(-3, 3)) for _ in range(d)]])
     return {"recipe": rec, "chem": chem, "k": k, "pre": pre, "ene": ene, "preT": preT, "eneT": eneT, "ends": ends,
-            "alpha": draw(st.sampled_from([0.01, 0.5, 3.0, 100.0])), "gop": draw(st.integers(0, 47))}
+            "alpha": draw(st.sampled_from([0.01, 0.5, 3.0, 100.0])), "gop": draw(st.integers(0, 47)),
+            # a quarter of the calculators get their k-point mesh from the caller (kptwt=): the library's own reduced mesh in another
+            # order (1 reversed, 2 rolled by half), so the Gamma point is not the first entry
+            "kptorder": draw(st.sampled_from([0, 0, 0, 0, 0, 1, 1, 2]))}
 
 
 _gf = {}
@@ -62,7 +66,12 @@ _gf = {}
 
 def gfcalc(case, Nmax):
     from onsager import GFcalc
-    key = canon([case["recipe"]["lattice"], case["recipe"]["basis"], case["chem"], case["k"], Nmax])
+    order = case.get("kptorder", 0)
+    key = canon([case["recipe"]["lattice"], case["recipe"]["basis"], case["chem"], case["k"], Nmax, order])
+    if key not in _gf and order:
+        crys, sl, jn, GF0 = gfcalc(dict(case, kptorder=0), Nmax)
+        perm = np.arange(GF0.Nkpt)[::-1] if order == 1 else np.roll(np.arange(GF0.Nkpt), GF0.Nkpt // 2)
+        _gf[key] = (crys, sl, jn, GFcalc.GFCrystalcalc(crys, case["chem"], sl, jn, Nmax=Nmax, kptwt=(GF0.kpts[perm].copy(), GF0.wts[perm].copy())))
     if key not in _gf:
         if len(_gf) > 40:
             _gf.clear()
@@ -118,7 +127,8 @@ def check(case):
     if len(case["pre"]) != len(sl) or len(case["preT"]) != len(jn):
         raise HarnessError("stale case")
     r4, GF, rho, jumps = residuals(case, 4)
-    classes = cs.describe(crys) + ["wyckoff%d" % min(len(sl), 3), "components%d" % min(GF.Ndiff, 3)] + (["diffuser_not_first_species"] if chem else [])
+    classes = cs.describe(crys) + ["wyckoff%d" % min(len(sl), 3), "components%d" % min(GF.Ndiff, 3)] + (["diffuser_not_first_species"] if chem else []) + \
+              (["caller_kpt_mesh"] if case.get("kptorder", 0) else [])
     tight = 2e-6 if crys.dim == 3 else 2e-5
     if r4["eq"] > tight:
         r8, _, _, _ = residuals(case, 8)
@@ -206,7 +216,7 @@ def check(case):
     es = max(abs(v * a - w) for v, w in zip(ra["vals"], vals4)) / r4["g0"]
     require(es <= 1e-9, lambda: "scaling every rate by %g does not scale the Green function by 1/%g: relative difference %.3e" % (a, a, es))
     nt = (len(sl) >= 2 and np.ptp(case["ene"]) > 0.05) or r4["sep"] >= 3
-    return {"key": canon([case["recipe"]["lattice"], case["recipe"]["basis"], case["k"], case["pre"], case["ene"], case["preT"], case["eneT"], case["ends"]]),
+    return {"key": canon([case["recipe"]["lattice"], case["recipe"]["basis"], case["k"], case["pre"], case["ene"], case["preT"], case["eneT"], case["ends"], case.get("kptorder", 0)]),
             "nontrivial": bool(nt), "classes": classes,
             "sample": {"crystal": case["recipe"]["name"], "basis": case["recipe"]["basis"], "shell": case["k"], "pre": case["pre"], "ene": case["ene"], "preT": case["preT"],
                        "eneT": case["eneT"], "ends": case["ends"], "eq_residual": r4["eq"], "farfield_dev": far}}
